@@ -71,6 +71,13 @@ let impl (fn : string) (a : string array) : string option =
     Some (both (f (i_Index_str_a (s 0) (s 1))) (f (i_Index_byt_a (s 0) (s 1))))
   | "i.bruteForce" -> Some (res_z (i_brute_str (s 0) (s 1)) ^ "|" ^ res_z (i_brute_byt (s 0) (s 1)))
   | "i.rabinKarp" -> Some (res_z (i_rk_str (s 0) (s 1)) ^ "|" ^ res_z (i_rk_byt (s 0) (s 1)))
+  | "LastIndex" -> Some (both (res_z (i_LastIndex_str (s 0) (s 1))) (res_z (i_LastIndex_byt (s 0) (s 1))))
+  | "IndexAny" -> Some (both (res_z (i_IndexAny_a (s 0) (s 1))) (res_z (i_IndexAny_c (s 0) (s 1))))
+  | "LastIndexAny" -> Some (both (res_z (i_LastIndexAny_a (s 0) (s 1))) (res_z (i_LastIndexAny_c (s 0) (s 1))))
+  | "ContainsAny" ->
+    let f r = res_map (fun v -> sbool (int_of_z v >= 0)) r in
+    Some (both (f (i_IndexAny_a (s 0) (s 1))) (f (i_IndexAny_c (s 0) (s 1))))
+  | "i.rabinKarpRev" -> let r = res_z (i_rkrev_str (s 0) (s 1)) in Some (r ^ "|" ^ r)
   (* unexported strategies (hooks under verif_internals): "str-result|byt-result" *)
   | "i.hasPrefixUnicode" ->
     let f r = res_map (fun (m, e) -> sbool m ^ ":" ^ sbool e) r in
